@@ -124,3 +124,44 @@ func TestC12SortKeysByText(t *testing.T) {
 		t.Errorf("sort keys 2, 3, 10 came back as %v", got)
 	}
 }
+
+// KF-C09-unevaluated-expression: a key condition or filter that no stored item reaches is never parsed.
+func TestC09UnevaluatedExpression(t *testing.T) {
+	ctx := context.Background()
+	c := v2.NewClient()
+	if err := v2.AddTable(ctx, c, "tbl", "h", ""); err != nil {
+		t.Fatal(err)
+	}
+	tbl := "tbl"
+	vals := map[string]v2types.AttributeValue{":x": &v2types.AttributeValueMemberS{Value: "a"}}
+	rejected := func(f func() error) (rej bool) {
+		defer func() {
+			if recover() != nil {
+				rej = true
+			}
+		}()
+		return f() != nil
+	}
+	bad := "this is ((( garbage"
+	if !rejected(func() error {
+		_, err := c.Scan(ctx, &dynamodb.ScanInput{TableName: &tbl, FilterExpression: &bad})
+		return err
+	}) {
+		t.Errorf("Scan of an empty table accepted the filter %q", bad)
+	}
+	reserved := "status = :x"
+	if !rejected(func() error {
+		_, err := c.Scan(ctx, &dynamodb.ScanInput{TableName: &tbl, FilterExpression: &reserved, ExpressionAttributeValues: vals})
+		return err
+	}) {
+		t.Errorf("Scan of an empty table accepted the reserved word in %q", reserved)
+	}
+	c.PutItem(ctx, &dynamodb.PutItemInput{TableName: &tbl, Item: map[string]v2types.AttributeValue{"h": &v2types.AttributeValueMemberS{Value: "b"}}})
+	kc, flt := "h = :x", "v = :x AND"
+	if !rejected(func() error {
+		_, err := c.Query(ctx, &dynamodb.QueryInput{TableName: &tbl, KeyConditionExpression: &kc, FilterExpression: &flt, ExpressionAttributeValues: vals})
+		return err
+	}) {
+		t.Errorf("Query whose key condition selects nothing accepted the filter %q", flt)
+	}
+}
